@@ -76,8 +76,14 @@ impl WalIndex {
             )
         })?;
 
+        #[cfg(walrus_verif)]
+        crate::wal::verif::io_event_data("write_file", &tmp_path, 0, &bytes);
         fs::write(&tmp_path, &bytes)?;
+        #[cfg(walrus_verif)]
+        crate::wal::verif::io_event("fsync", &tmp_path, 0, 0);
         fs::File::open(&tmp_path)?.sync_all()?;
+        #[cfg(walrus_verif)]
+        crate::wal::verif::io_event_rename(&tmp_path, &self.path);
         fs::rename(&tmp_path, &self.path)?;
         Ok(())
     }
